@@ -175,6 +175,9 @@ Theorem convert_heralded_correct_B :
     (kmul cB (kofZ cB 16) (kmul cB kcz (kconj cB kcz)) = k1 cB /\
      kmul cB (kofZ cB 16) (kmul cB kcx0 (kconj cB kcx0)) = k1 cB /\
      kmul cB (kofZ cB 16) (kmul cB kcx1 (kconj cB kcx1)) = k1 cB) /\
+    (forall ops : list eop,
+       kmul cB (kmul cB (kprod oB kcz kcx0 kcx1 ops (k1 cB)) (kconj cB (kprod oB kcz kcx0 kcx1 ops (k1 cB))))
+               (wprod oB ops (k1 cB)) = k1 cB) /\
     forall (ang : nat -> KB * KB) (nq : nat) (gs : list qgate) (ops : list eop) (rules : option (list nat)),
       Forall (ConvertP.in_range nq) gs -> Forall (fun g => NoDup (g_qubits g)) gs ->
       convert false gs = Ok (ops, rules) ->
@@ -186,6 +189,9 @@ Proof.
   destruct CNOTH0_gate_ok as (g2 & k2' & G2 & N2 & O2).
   destruct CNOTH1_gate_ok as (g3 & k3' & G3 & N3 & O3).
   exists k1', k2', k3'. split; [repeat split; assumption|].
+  split.
+  { intros ops. apply (kprod_unit oB k1' k2' k3' N1 N2 N3 ops (k1 cB) (k1 cB)).
+    apply (by_eqb cB). vm_compute. reflexivity. }
   intros ang nq gs ops rules Hr Hd Hc.
   exact (convert_heralded_correct oB ninvB ninvB_spec b_h b_r2 (k0 oB) b_qi b_g (k0 oB) ang b_h_half
            g1 g2 g3 k1' k2' k3' (conj G1 O1) (conj G2 O2) (conj G3 O3) nq gs ops rules Hr Hd Hc).
